@@ -19,6 +19,7 @@ from ..cfg import cfg_of
 from ..flow import Paths, result_fates, dominating_conditions
 from .. import pe
 from .. import fclass
+from ..strpe import StrPE
 from .c01 import RFC_ESC
 
 F_SPACED, F_PRETTY, F_NOZERO, F_TAB, F_NOSLASH, F_COLOR = 1, 2, 4, 8, 16, 32
@@ -36,6 +37,10 @@ def run(chk):
     r4(chk, prog, m)
     r5(chk, prog, m)
     r6(chk, prog, m)
+    from . import c01
+    ft = prog.fn("json_tokener_parse_ex")
+    chk.require(ft is not None, "json_tokener_parse_ex not found")
+    c01.r6(chk, prog, ft)        # re-parsing: the number read back is the library conversion of the emitted text
     chk.undecided_clauses += [
         "exactness of the %.17g double text itself (libc's conversion; value-level)",
         "parse(serialize(T)) == T and re-serialization identity (needs both executions)",
@@ -513,7 +518,7 @@ from decimal import Decimal as _Dec
 RFC_NUM = _re.compile(rb"-?(0|[1-9][0-9]*)(\.[0-9]+)?([eE][+-]?[0-9]+)?\Z")
 
 
-class FmtPE(pe.PE):
+class FmtPE(StrPE):
     """the double emitter with snprintf's result fixed to one sample text; libc string functions are evaluated on the buffer"""
 
     def __init__(self, prog, text, flags):
@@ -530,41 +535,8 @@ class FmtPE(pe.PE):
             return pe.C(0)            # no custom format installed (global / thread-local pointers are NULL)
         return pe.TOP
 
-    # -- byte-string helpers over the evaluator's memory -------------------------------------------
-    @staticmethod
-    def _at(p, k):
-        path = list(p[2])
-        if path and isinstance(path[-1], tuple) and path[-1][0] == "i" and isinstance(path[-1][1], int):
-            path[-1] = ("i", path[-1][1] + k)
-        else:
-            path.append(("i", k))
-        return ("ptr", p[1], tuple(path))
-
-    def _byte(self, state, p, k):
-        v = self.load(state, self._at(p, k), "i8")
-        return v[1] % 256 if pe.is_const(v) else None
-
-    def _cstr(self, state, p, limit=200):
-        if p[0] != "ptr":
-            return None
-        out = bytearray()
-        for k in range(limit):
-            b = self._byte(state, p, k)
-            if b is None:
-                return None
-            if b == 0:
-                return bytes(out)
-            out.append(b)
-        return None
-
-    def _write(self, state, p, data):
-        for k, b in enumerate(data):
-            self.store(state, self._at(p, k), pe.C(b if b < 128 else b - 256))
-
     def call_model(self, state, frame, i, args):
         nm = i.callee
-        if nm == "json_object_get_double" or nm is None:
-            return None
         if nm == "snprintf":
             fmt = self._cstr(state, args[2])
             if fmt is None:
@@ -576,35 +548,6 @@ class FmtPE(pe.PE):
                 txt = fmt
             self._write(state, args[0], txt + b"\0")
             return pe.C(len(txt))
-        if nm in ("strchr",):
-            s = self._cstr(state, args[0])
-            if s is None or not pe.is_const(args[1]):
-                return None
-            k = (s + b"\0").find(bytes([args[1][1] % 256]))
-            return self._at(args[0], k) if k >= 0 else pe.C(0)
-        if nm == "strstr":
-            a, b = self._cstr(state, args[0]), self._cstr(state, args[1])
-            if a is None or b is None:
-                return None
-            k = a.find(b)
-            return self._at(args[0], k) if k >= 0 else pe.C(0)
-        if nm == "strlen":
-            s = self._cstr(state, args[0])
-            return pe.C(len(s)) if s is not None else None
-        if nm == "strcat":
-            a, b = self._cstr(state, args[0]), self._cstr(state, args[1])
-            if a is None or b is None:
-                return None
-            self._write(state, self._at(args[0], len(a)), b + b"\0")
-            return args[0]
-        if nm in ("memmove", "memcpy", "llvm.memmove.p0i8.p0i8.i64", "llvm.memcpy.p0i8.p0i8.i64"):
-            if not pe.is_const(args[2]):
-                return None
-            data = [self._byte(state, args[1], k) for k in range(args[2][1])]
-            if any(d is None for d in data):
-                return None
-            self._write(state, args[0], bytes(data))
-            return args[0]
         if nm == "printbuf_memappend":
             n = args[2][1] if pe.is_const(args[2]) else None
             data = None
@@ -613,7 +556,7 @@ class FmtPE(pe.PE):
                 data = bytes(bs) if all(b is not None for b in bs) else None
             state.trace.append(("out", data, n))
             return pe.C(n if n is not None else 0)
-        return None
+        return self.libc_string_model(state, frame, i, args)
 
 
 def _sample_texts():
